@@ -252,7 +252,7 @@ def run_model(obs_lines, jobs=None):
     return res
 
 class Case:
-    __slots__ = ("line", "obs", "agree", "fails", "model", "tag", "result")
+    __slots__ = ("line", "obs", "agree", "fails", "model", "tag", "result", "base")
     def __init__(self, line, obs, answer, tag=None):
         self.line = line; self.obs = obs; self.tag = tag
         parts = answer.split(" ", 2)
